@@ -107,6 +107,7 @@ func (e *vfExec) Run() error {
 	attempt := vfCount("start", e.idx)
 	if vfCfg.timeout && e.ctx.Err() != nil {
 		// exec.CommandContext refuses to start a process once the context is done
+		vfEvent("ctx-expired", e.idx, attempt)
 		vfEvent("refused", e.idx, attempt)
 		return e.ctx.Err()
 	}
@@ -157,6 +158,9 @@ func (e *vfExec) Run() error {
 	fail := vfBool("fail")
 	if e.killed || (vfCfg.timeout && e.ctx.Err() != nil) {
 		fail = true // terminated by the stop signal / by the expired context
+	}
+	if vfCfg.timeout && e.ctx.Err() != nil {
+		vfEvent("ctx-expired", e.idx, attempt)
 	}
 	f := 0
 	if fail {
@@ -245,6 +249,9 @@ func vfRun(cfg vfRunCfg) {
 	}
 	if cfg.timeout {
 		c.Timeout = time.Hour
+		if vfNative() {
+			c.Timeout = 400 * time.Millisecond // = vfNativeTimeout of the replay runtime
+		}
 	}
 	hs := [4]bool{}
 	if cfg.handlers {
@@ -469,8 +476,12 @@ func vfFinalChecks(cfg vfRunCfg, lim, pre []int, hs [4]bool, rerr error) {
 		}
 	}
 	if cfg.mon&vfMonC05 != 0 && cfg.timeout {
-		expired := vfCount("timer-fired", -1) > 0
+		// expiry as seen by the engine (timer event) or, natively, by the executor (context done)
+		expired := vfCount("timer-fired", -1) > 0 || vfCount("ctx-expired", -1) > 0
 		iExp := vfEventIndex("timer-fired", -1, 0)
+		if iExp < 0 {
+			iExp = vfEventIndex("ctx-expired", -1, 0)
+		}
 		if expired {
 			unfinishedAtExpiry := false
 			for i := 0; i < cfg.n; i++ {
